@@ -14,7 +14,7 @@ from mc.common import replay_via
 ID = 'C17'
 LEVEL = 'exploration'
 RULE = ("radius pairs (r1,r2) from {1,0.1,0.3,1/3,2.5,7,1e-3,1e3,123.456} (all 81 ordered pairs) x base distance in "
-        "{r1+r2, |r1-r2|, 0, (r1+r2)/2, r1, r2, sqrt(|r1^2-r2^2|)} x ulp offsets -J..J x 4 directions x 2 origins; a case is "
+        "{r1+r2, |r1-r2|, 0, (r1+r2)/2, r1, r2, sqrt(|r1^2-r2^2|)} x ulp offsets -J..J x 4 directions x 2 origins, plus relative neighbourhoods base*(1+k*10^-e), e=4..7, |k|<=4, all evaluated in one process per radius pair (so a stale cache or coarse rounding shows); a case is "
         "non-trivial when the exact configuration is a proper lens or within 1e-9*max(r) of a tangency; cases are distinct inputs")
 ASSUMPTIONS = ["the oracle is the closed-form lens area evaluated at 60 significant digits (mpmath) on the same float inputs",
                "tolerance is the property's own: 1e-5 * max(r1,r2)^2"]
@@ -105,6 +105,21 @@ def run_shard(shard, tier, res):
                     seen.add(key)
                     case = dict(c1=list(c1), r1=r1, c2=list(c2), r2=r2)
                     check_case(case, res)
+    # relative neighbourhoods (steps of 1e-4 .. 1e-7 of the base distance): neighbours that a coarse
+    # rounding or cache would confuse although their areas differ by more than the tolerance
+    for base in bases[:1] + bases[3:]:
+        for rel in (1e-4, 1e-5, 1e-6, 1e-7):
+            for k in range(-4, 5):
+                d = base * (1 + k * rel)
+                if d < 0 or k == 0:
+                    continue
+                for (ux, uy) in DIRS[:1] + DIRS[2:3]:
+                    c1 = ORIGINS[0]
+                    c2 = (d * ux, d * uy)
+                    if (c1, c2) in seen:
+                        continue
+                    seen.add((c1, c2))
+                    check_case(dict(c1=list(c1), r1=r1, c2=list(c2), r2=r2), res)
     res.samples.append(dict(c1=[0.0, 0.0], r1=r1, c2=[shift(r1 + r2, -1), 0.0], r2=r2))
 
 
